@@ -698,22 +698,29 @@ def indicator (adj : Nat → Nat → Bool) (i j : Nat) : Rat := if adj i j then 
     count the loop as a neighbour and are no longer the quantities the property names)
     `count_triangles` is the number of 3-cliques, sequentially and under every schedule of the parallel loop
     (any number of threads); `count_cliques(k)` is the number of `k`-cliques for every `k ≥ 2`;
-    `get_core_decomposition` is the core number of every node; `get_clustering_coefficient` is three times the
+    `get_core_decomposition` is the core number of every node (both stated for the Python entry points, what the
+    `run` lines execute); `get_clustering_coefficient` is three times the
     triangle count over the number of connected triples (`nan` when there is none), sequentially or in parallel. -/
 theorem C11_model (n : Nat) (adj : Nat → Nat → Bool) (hsym : ∀ a b, adj a b = adj b a)
     (_hirr : ∀ a, adj a a = false) :
     countTriangles n n (indicator adj) none = .ok (cliqueCount n adj 3) ∧
     (∀ s : Schedule, s.Valid n → countTriangles n n (indicator adj) (some s) = .ok (cliqueCount n adj 3)) ∧
-    (∀ k, 2 ≤ k → countCliques n (csrOfEdge n adj) adj k = .ok (some (cliqueCount n adj k))) ∧
-    computeCore (csrOfEdge n adj).indptr (csrOfEdge n adj).indices =
-      some (tab n fun v => (coreNumberSpec n adj v : Int)) ∧
+    (∀ k : Nat, 2 ≤ k → countCliquesEntry n n (indicator adj) (k : Int) = .ok (some (cliqueCount n adj k))) ∧
+    getCoreDecomposition n n (indicator adj) = .ok (some (tab n fun v => (coreNumberSpec n adj v : Int))) ∧
     (∀ v, v < n → IsCoreNumber n adj v (coreNumberSpec n adj v)) ∧
     clusteringCoefficient n n (indicator adj) none = .ok (clusteringSpec n adj) ∧
     (∀ s : Schedule, s.Valid n → clusteringCoefficient n n (indicator adj) (some s) = .ok (clusteringSpec n adj)) := by
   have hse : symEdge (indicator adj) = adj := by
     funext i j; exact symEdge_indicator adj hsym i j
-  refine ⟨triangles_exact_undirected n adj hsym, ?_, fun k hk => count_cliques_exact n adj hsym k hk,
-    core_exact_spec n adj hsym, fun v hv => coreNumberSpec_exact n adj v hv, ?_, ?_⟩
+  have hce : ∀ i j, coreEdge (indicator adj) i j = adj i j := by
+    intro i j
+    unfold coreEdge indicator
+    by_cases h : adj i j = true
+    · simp [h]
+    · simp [h]
+  refine ⟨triangles_exact_undirected n adj hsym, ?_,
+    fun k hk => count_cliques_entry_exact_undirected n adj hsym k hk,
+    get_core_decomposition_exact n adj hsym (indicator adj) hce, fun v hv => coreNumberSpec_exact n adj v hv, ?_, ?_⟩
   · intro s hs
     rw [triangles_parallel_exact n (indicator adj) s hs, hse]
   · rw [clustering_coefficient_eq n (indicator adj) none (fun sch h => by cases h), hse]
